@@ -840,37 +840,37 @@ func checkTree(gi *gramInfo, text string, res genharness.Result, ex *exercise) (
 		add("harness:bad-walk", "cannot decode the walk: %v", err)
 		return
 	}
-	// Is there a reported range (listener event) that is missing from the tree, i.e. an
-	// empty range sitting exactly at the end offset of a node? Used to refine keys only.
-	emptyAtEndOf := func(n *vNode, types map[string]bool) bool {
+	// Zero-width nodes are placed by ast.Parse's builder from their offsets alone. Two known
+	// consequences (one root cause, reported under the key prefix "empty-node-misplaced"):
+	// an empty node at the very end of its parent is left outside of the parent, and an empty
+	// node directly in front of a sibling is swallowed by that sibling. The listener events of
+	// a second, listener-only parse tell whether an absent required node was in fact reported
+	// by the parser as an empty range inside (or right behind) the receiver. Used to choose
+	// the key only.
+	emptyMisplaced := func(n *vNode, types map[string]bool) bool {
 		for _, e := range res.Events {
-			if e.Off == e.End && e.Off >= n.End && e.Off <= len(text) && types[e.Type] && strings.TrimSpace(text[n.End:e.Off]) == "" {
+			if e.Off != e.End || !types[e.Type] || e.Off < n.Off || e.Off > len(text) {
+				continue
+			}
+			if e.Off <= n.End || strings.TrimSpace(text[n.End:e.Off]) == "" {
 				return true
 			}
 		}
 		return false
 	}
-	// An empty child that no accessor of its parent returns: does it sit right after the end
-	// of a node on the rightmost path of its previous sibling which declares a field of that
-	// type? Then it was meant to be the last child of that node (same root cause).
-	belongsToLeftNeighbour := func(parent *vNode, k int) bool {
-		if k == 0 {
+	// An empty child that the declarations of its parent's type do not admit at all.
+	childMisplaced := func(parent *vNode, k int) bool {
+		ch := &nodes[parent.Kids[k]]
+		rt := gi.types[parent.Type]
+		if ch.Off != ch.End || rt == nil {
 			return false
 		}
-		ch := &nodes[parent.Kids[k]]
-		for d := &nodes[parent.Kids[k-1]]; ; {
-			if rt := gi.types[d.Type]; rt != nil && d.End <= ch.Off && ch.Off <= len(text) && strings.TrimSpace(text[d.End:ch.Off]) == "" {
-				for _, f := range rt.Fields {
-					if gi.expand(f.Selector)[ch.Type] {
-						return true
-					}
-				}
-			}
-			if len(d.Kids) == 0 {
+		for _, f := range rt.Fields {
+			if gi.expand(f.Selector)[ch.Type] {
 				return false
 			}
-			d = &nodes[d.Kids[len(d.Kids)-1]]
 		}
+		return true
 	}
 	for i := range nodes {
 		n := &nodes[i]
@@ -937,16 +937,16 @@ func checkTree(gi *gramInfo, text string, res genharness.Result, ex *exercise) (
 			case "single":
 				if len(a.Ret) != 1 || !a.Ret[0].Valid {
 					key := "accessor:required-absent"
-					if emptyAtEndOf(n, allowed) {
-						key = "empty-node-at-end-of-parent:required-accessor-absent"
+					if emptyMisplaced(n, allowed) {
+						key = "empty-node-misplaced:required-accessor-absent"
 					}
 					add(key, "%s of %s returns an absent node although the field is required", acc, where)
 				}
 			case "list":
 				if f.IsRequired && len(a.Ret) == 0 {
 					key := "accessor:required-absent"
-					if emptyAtEndOf(n, allowed) {
-						key = "empty-node-at-end-of-parent:required-accessor-absent"
+					if emptyMisplaced(n, allowed) {
+						key = "empty-node-misplaced:required-accessor-absent"
 					}
 					add(key, "%s of %s returns an empty list although the field is required (one or more)", acc, where)
 				}
@@ -997,8 +997,8 @@ func checkTree(gi *gramInfo, text string, res genharness.Result, ex *exercise) (
 			}
 			if !covered[k] {
 				key := "accessor:child-not-returned"
-				if ch.Off == ch.End && belongsToLeftNeighbour(n, k) {
-					key = "empty-node-at-end-of-parent:attached-to-wrong-parent"
+				if childMisplaced(n, k) {
+					key = "empty-node-misplaced:attached-to-wrong-parent"
 				}
 				add(key, "%s: child #%d %s[%d,%d) is returned by no accessor (declared fields: %s)", where, k, ch.Type, ch.Off, ch.End, rt.Descriptor())
 			}
@@ -1036,6 +1036,8 @@ func checkItem(c *core.Ctx, it *item) (nontrivial bool, fs []finding) {
 		switch {
 		case strings.Contains(it.buildErr, "already declared") || strings.Contains(it.buildErr, "redeclared"):
 			key += ":duplicate-declaration"
+		case strings.Contains(it.buildErr, "b.addNode"):
+			key += ":node-flags"
 		case strings.Contains(it.buildErr, "walker/scratch module"):
 			key = "harness:walker-does-not-build"
 		}
@@ -1109,6 +1111,26 @@ func variantFor(cd cand) variant {
 	h := fnv.New32a()
 	h.Write([]byte(cd.Rules))
 	return variants[int(h.Sum32()%uint32(len(variants)))]
+}
+
+// flagsRules is the one grammar with node flags (-> A/Foo): the listener type then takes a flags
+// argument. In the quick tier it is only generated and inspected (the ast package's builder
+// must be usable as that listener), in the thorough tier and in replay it is built.
+const flagsRules = "S -> @ROOT@ :\n    XF Y ;\n\nXF -> A/Foo :\n    ta ;\n"
+
+var (
+	listenerFlagsRe = regexp.MustCompile(`type Listener func\(t NodeType, flags NodeFlags, offset, endoffset int\)`)
+	addNodePlainRe  = regexp.MustCompile(`func \(b \*builder\) addNode\(t [\w.]+, offset, endoffset int\)`)
+)
+
+// flagsProbe returns a finding when the generated ast package cannot compile because its
+// builder is passed as a Listener of a different signature.
+func flagsProbe(files map[string]string) string {
+	parse := files["ast/parse.go"]
+	if listenerFlagsRe.MatchString(files["listener.go"]) && addNodePlainRe.MatchString(parse) && strings.Contains(parse, "p.Init(b.addNode)") {
+		return "listener.go declares `type Listener func(t NodeType, flags NodeFlags, offset, endoffset int)` (the grammar uses node flags), ast/parse.go passes b.addNode(t, offset, endoffset) to p.Init: the generated ast package does not compile (replay builds it)"
+	}
+	return ""
 }
 
 // seeds are members of the enumeration that are always run first (one per mechanism), so that
@@ -1212,9 +1234,31 @@ func run(c *core.Ctx) {
 		}
 		pending = pending[:0]
 	}
-	// The first batch holds the seeds only (its duration calibrates the following batch sizes:
+	// The first batch holds the seeds and a few more (its duration calibrates the following batch sizes:
 	// the machine is shared, a build takes between 0.3 s and 6 s per grammar).
-	limit := len(seeds)
+	{
+		cd := cand{"flags", flagsRules}
+		v := variants[0]
+		name := "g99999"
+		tm := tmText(cd, v, name)
+		it := &item{Idx: len(cands), Name: name, Cand: cd, Variant: v, TM: tm, Inputs: allStrings(alphabet(tm), L)}
+		g, files, genErr, genPanic := genharness.Generate(name, tm)
+		switch {
+		case genErr != "" || genPanic != "" || g == nil:
+			c.Outcome("rejected: node-flags grammar", 1)
+		case c.Quick():
+			if msg := flagsProbe(files); msg != "" {
+				all = append(all, finding{key: "generated-code-does-not-build:node-flags", what: msg, it: it, ti: -1})
+			}
+			c.Add("grammars_inspected_without_build", 1)
+		default:
+			pending = append(pending, it)
+		}
+	}
+	limit := len(seeds) + 12
+	if !c.Quick() {
+		limit = batchSize
+	}
 	done := 0
 	for _, ci := range order {
 		if c.Expired() {
